@@ -23,6 +23,8 @@ pub struct DwarfPlan {
     pub sequences: Vec<Vec<usize>>,
     /// also emit a row at the function's body start (non-instruction address)
     pub row_at_function_start: bool,
+    /// give the compile unit DIE a low_pc/high_pc pair spanning all functions
+    pub cu_range: bool,
 }
 
 pub const LINE_STRIDE: u64 = 100_000;
@@ -182,7 +184,14 @@ pub fn synthesize(m: &ModuleD, plan: &DwarfPlan) -> Option<Vec<(String, Vec<u8>)
         let name = dwarf.strings.add(&b"main.c"[..]);
         let r = unit.get_mut(root);
         r.set(gimli::DW_AT_name, gw::AttributeValue::StringRef(name));
-        r.set(gimli::DW_AT_low_pc, gw::AttributeValue::Address(gw::Address::Constant(0)));
+        if plan.cu_range && !m.funcs.is_empty() {
+            let lo = m.funcs[0].body_range.start as u64 - cs;
+            let hi = m.funcs[m.funcs.len() - 1].entry_range.end as u64 - cs;
+            r.set(gimli::DW_AT_low_pc, gw::AttributeValue::Address(gw::Address::Constant(lo)));
+            r.set(gimli::DW_AT_high_pc, gw::AttributeValue::Udata(hi - lo));
+        } else {
+            r.set(gimli::DW_AT_low_pc, gw::AttributeValue::Address(gw::Address::Constant(0)));
+        }
     }
     for (fo, f) in m.funcs.iter().enumerate() {
         let die = unit.add(root, gimli::DW_TAG_subprogram);
@@ -235,12 +244,34 @@ pub fn gen_plan(m: &ModuleD, ch: &mut Ch) -> DwarfPlan {
         sequences.push((i..e).collect());
         i = e;
     }
+    let cu_range = ch.chance(1, 3);
     DwarfPlan {
         version,
         low_pc_at_body,
         sequences,
         row_at_function_start,
+        cu_range,
     }
+}
+
+/// the LLVM-like subset: one sequence per function, low_pc at the body start
+pub fn gen_plan_simple(m: &ModuleD, ch: &mut Ch) -> DwarfPlan {
+    DwarfPlan {
+        version: if ch.chance(1, 3) { 5 } else { 4 },
+        low_pc_at_body: true,
+        sequences: (0..m.funcs.len()).map(|i| vec![i]).collect(),
+        row_at_function_start: ch.chance(1, 3),
+        cu_range: ch.chance(1, 2),
+    }
+}
+
+pub fn attach_dwarf_simple(bytes: &[u8], ch: &mut Ch) -> Option<Vec<u8>> {
+    let m = decode(bytes).ok()?;
+    if m.funcs.is_empty() {
+        return None;
+    }
+    let plan = gen_plan_simple(&m, ch);
+    attach(bytes, &m, &plan)
 }
 
 /// Append synthesized DWARF sections to a module (as trailing custom sections).
